@@ -137,27 +137,44 @@ def run(ctx: Ctx) -> None:
     ev2 = make_evaluator(repo, pr, extra_call=_hook)
     ev2.int_transparent = True
     env = Env()
-    env.vars["area"] = Poly.var("item_area")
+    ip = pr.params[0]
+    # the local that holds the summed item area: bound to sum(<generator>)
+    area_nm = None
+    for s in func_body(pr):
+        if isinstance(s, (ast.Assign, ast.AnnAssign)) and isinstance(
+                getattr(s, "value", None), ast.Call) and isinstance(
+                s.value.func, ast.Name) and s.value.func.id == "sum" and \
+                s.value.args and isinstance(
+                s.value.args[0], (ast.GeneratorExp, ast.ListComp)):
+            tg = s.targets[0] if isinstance(s, ast.Assign) else s.target
+            if isinstance(tg, ast.Name):
+                area_nm = tg.id
+    if area_nm is not None:
+        env.vars[area_nm] = Poly.var("item_area")
     ok3 = False
     try:
         for s in func_body(pr):
             if isinstance(s, (ast.Assign, ast.AnnAssign)):
                 tg = s.targets[0] if isinstance(s, ast.Assign) else s.target
-                if isinstance(tg, ast.Name) and tg.id == "area":
+                if isinstance(tg, ast.Name) and tg.id == area_nm:
                     continue
             env = ev2.stmt(env, s)
         got = env.returned
-        Bp = Poly.var("inst.bin_width") * Poly.var("inst.bin_height")
-        ok3 = isinstance(got, Poly) and is_exact_ceil(
-            got, Poly.var("item_area"), Bp)
+        Bp = Poly.var(f"{ip}.bin_width") * Poly.var(f"{ip}.bin_height")
+        ok3 = area_nm is not None and isinstance(got, Poly) and \
+            is_exact_ceil(got, Poly.var("item_area"), Bp)
     except Unsupported:
         ok3 = False
     gen = next((n for n in ast.walk(pr.node)
-                if isinstance(n, ast.GeneratorExp)), None)
-    ok4 = gen is not None and ast.unparse(gen.generators[0].iter) == \
-        "inst" and not gen.generators[0].ifs and ast.unparse(
-        gen.elt).replace(" ", "") in (
-        "int(row[0])*int(row[1])*int(row[2])",)
+                if isinstance(n, (ast.GeneratorExp, ast.ListComp))), None)
+    ok4 = False
+    if gen is not None and len(gen.generators) == 1 and isinstance(
+            gen.generators[0].target, ast.Name):
+        rv_ = gen.generators[0].target.id
+        ok4 = ast.unparse(gen.generators[0].iter) == ip and \
+            not gen.generators[0].ifs and sorted(ast.unparse(
+                gen.elt).replace(" ", "").split("*")) == sorted(
+                f"int({rv_}[{k_}])" for k_ in (0, 1, 2))
     ctx.ob("D3.1", pr, pr.node, ok3 and ok4,
            "packing_result.__lb_geometric is the same exact ceiling over "
            "all rows" if ok3 and ok4 else
